@@ -187,13 +187,16 @@ pub fn std_program(rng: &mut Rng) -> Vec<u8> {
 /// output ranges of *some* pairs overlap (not necessarily the last pair
 /// compared), data in a subset of the banks.
 pub fn bank_program(rng: &mut Rng) -> Vec<u8> {
+    if rng.chance(1, 2) {
+        return tidy_bank_program(rng);
+    }
     let mut s = String::new();
     let names = ["low", "mid", "high", "extra"];
     let n = rng.range(2, 4);
     for i in 0..n {
         s.push_str(&format!("#bankdef {}\n{{\n    #bits 8\n    #addr {}\n", names[i], rng.pick(&["0x0", "0x10", "0x8000", "0x100"])));
         if rng.chance(4, 5) {
-            s.push_str(&format!("    #size {}\n", rng.pick(&["0x4", "0x8", "0x10", "0x2"])));
+            s.push_str(&format!("    #size {}\n", rng.pick(&["0x4", "0x8", "0x10", "0x2", "0x4", "0x8", "0x0"])));
         }
         if rng.chance(5, 6) {
             s.push_str(&format!("    #outp 8 * {}\n", rng.pick(&["0x0", "0x4", "0x8", "0x10", "0x20", "0x2"])));
@@ -236,6 +239,11 @@ pub fn bank_program(rng: &mut Rng) -> Vec<u8> {
             }
         }
     }
+    if rng.chance(1, 6) {
+        // a bank of size zero that nothing is placed in, filled or not, at
+        // the start of the output or further on
+        s.push_str(&format!("#bankdef nothing\n{{\n    #bits 8\n    #addr {}\n    #size 0x0\n    #outp 8 * {}\n{}}}\n\n", rng.pick(&["0x0", "0x40"]), rng.pick(&["0x0", "0x0", "0x30"]), if rng.chance(2, 3) { "    #fill\n" } else { "" }));
+    }
     if rng.chance(1, 4) {
         // a bank that is never written to the output (no #outp) holding only
         // things that emit nothing: labels, reservations, an empty string
@@ -246,6 +254,62 @@ pub fn bank_program(rng: &mut Rng) -> Vec<u8> {
             _ => {}
         }
         s.push_str("ram_end:\n");
+    }
+    s.into_bytes()
+}
+
+/// A bank layout that assembles: consecutive output ranges, data that fits,
+/// banks without output holding only reservations — and now and then a bank
+/// of size zero (first in the output or in the middle), filled or not. The
+/// success side of bank handling (filling, listings with addresses, every
+/// output format) is only reached by programs like these.
+pub fn tidy_bank_program(rng: &mut Rng) -> Vec<u8> {
+    let mut s = String::new();
+    let names = ["low", "mid", "high", "extra"];
+    let n = rng.range(1, 4);
+    let mut out_off = 0usize;
+    let mut layout: Vec<(usize, bool)> = Vec::new();
+    let zero_at = if rng.chance(1, 3) { Some(rng.below(n + 1)) } else { None };
+    for i in 0..n {
+        if zero_at == Some(i) {
+            s.push_str(&format!("#bankdef nothing\n{{\n    #bits 8\n    #addr {}\n    #size 0\n    #outp 8 * 0x{:x}\n{}}}\n\n", rng.pick(&["0x0", "0x40"]), out_off, if rng.chance(2, 3) { "    #fill\n" } else { "" }));
+        }
+        let size = *rng.pick(&[4usize, 8, 16]);
+        let has_outp = rng.chance(5, 6);
+        s.push_str(&format!("#bankdef {}\n{{\n    #bits 8\n    #addr {}\n    #size 0x{:x}\n", names[i], rng.pick(&["0x0", "0x10", "0x8000", "0x100"]), size));
+        if has_outp {
+            s.push_str(&format!("    #outp 8 * 0x{:x}\n", out_off));
+            out_off += size;
+            if rng.chance(1, 3) {
+                s.push_str("    #fill\n");
+            }
+        }
+        s.push_str("}\n\n");
+        layout.push((size, has_outp));
+    }
+    if zero_at == Some(n) {
+        s.push_str(&format!("#bankdef nothing\n{{\n    #bits 8\n    #addr 0x40\n    #size 0\n    #outp 8 * 0x{:x}\n{}}}\n\n", out_off, if rng.chance(2, 3) { "    #fill\n" } else { "" }));
+    }
+    for (i, (size, has_outp)) in layout.iter().enumerate() {
+        if rng.chance(1, 4) {
+            continue;
+        }
+        s.push_str(&format!("#bank {}\n{}_start:\n", names[i], names[i]));
+        if *has_outp {
+            let k = rng.range(1, (*size).min(5));
+            let vals: Vec<String> = (0..k).map(|j| format!("{}", i * 16 + j)).collect();
+            s.push_str(&format!("#d8 {}\n", vals.join(", ")));
+            if k + 2 <= *size && rng.chance(1, 3) {
+                s.push_str("#d16 $\n");
+            } else if k + 1 <= *size && rng.chance(1, 3) {
+                s.push_str("#res 1\n");
+            }
+        } else {
+            s.push_str(&format!("#res {}\n", rng.range(1, *size)));
+        }
+        if rng.chance(1, 2) {
+            s.push_str(&format!("{}_end:\n", names[i]));
+        }
     }
     s.into_bytes()
 }
